@@ -11,6 +11,15 @@ claimed = {
  "C19": ("proof", "DESIGN.md 4 (C19)", "contract-based deductive verification: postconditions over ghost counters ctr(method,outcome)/ctrsum",
          "ProcessEntry and every handler are verified against counter postconditions: emitted event => exactly one increment in total, label outcome matches the event outcome, method password / ssh-key / ssh-cert for accepted forms; no keyword => no counter changes. IncLogins is verified against the assumed CounterVec contract.",
          "Assumes prometheus CounterVec.WithLabelValues/Counter.Inc contract (label pair -> one increment)."),
+ "C06": ("proof", "DESIGN.md 4 (C06), 3.7", "contract-based deductive verification: handler postconditions (event fields == named capture groups) + regular-language lemmas over regexp contracts derived from the pattern literals",
+         "Per handler, the code-level postcondition 'on a match exactly one event whose fields equal the named capture groups / constants' is proved from go/ssa; per message format of the oracle (22 forms, specs/sshd_formats.json) marker-language emptiness queries prove that every printed line is routed to its handler by the dispatch table read from the code, matches the pattern and that every group is exactly the printed field (no dominating parse), for all field values in the stated regular domains, any length.",
+         "Field domains are explicit preconditions (listed in evidence); the leftmost-first/greedy reading of RE2 and the soundness argument of the lemma generator (DESIGN.md 3.7) are trusted; json.Marshal of map[string]string is assumed faithful."),
+ "C07": ("proof", "DESIGN.md 4 (C07)", "contract-based deductive verification: postcondition of the real ParseSyslogMessage for every '<pid><spaces><message>\\n' record, discharged as marker-language position lemmas; ghost call record for Process",
+         "ParseSyslogMessage is symbolically executed over the assumed contracts of strings.TrimSuffix/Split/Join/TrimLeft; the universally quantified postcondition (PID == pid, Message == message for every terminated record with any padding) is Skolemised and each string equality is decided as a regular-language emptiness problem over one marked string (z3 5.1), unbounded in all lengths. Process is proved to hand exactly that value once to ProcessSshdLogEntry; AuditLogIngester.Process forwards the line unchanged.",
+         "auparse.ParseLogLine ignoring the trailing newline is dependency behaviour (assumed). strings.* contracts are assumed (listed)."),
+ "C17": ("proof", "DESIGN.md 4 (C17), 3.7", "regular-language lemmas (marker encoding, z3 5.1/cvc5) over regexp contracts derived from the current pattern literals, user name domain [^\\n]*",
+         "For invalid user / failed password / maximum attempts with the user name ranging over all of [^\\n]* (spaces, ' from ', ' port ' included, any length): every printed line reaches its handler and matches, and the Source and Port groups are exactly the printed address and port; composed with the handlers' verified postconditions.",
+         "Address domain \\S+, port [0-9]+ (what sshd prints); derived regexp contracts and the lemma generator are trusted."),
 }
 na_reason = "not yet built in this revision of the machinery (see DESIGN.md section 7 for the construction order)"
 props = [json.loads(l) for l in open('/verif/properties.jsonl')]
